@@ -1,23 +1,46 @@
 #!/usr/bin/env python3
-"""Markdown table of the seeded breakages for DESIGN.md section 11.
-Reads seeded/*/meta.json, seeded/*/note.md and a seedtest log (stdin)."""
-import json, os, re, sys
+"""Index of the seeded breakages (seeded/INDEX.md) and the summary for
+DESIGN.md section 11.  Reads seeded/*/meta.json, note.md and a seedtest log
+on stdin.   tools/seedtest.py | tee log ; tools/seedreport.py < log"""
+import json, os, re, sys, collections
 HERE = os.path.dirname(os.path.dirname(os.path.abspath(__file__)))
 STRENGTHENED = json.load(open(os.path.join(HERE, "seeded", "strengthened.json")))
-res = {}
+res = collections.defaultdict(list)
 for line in sys.stdin:
-    m = re.match(r"^(C\d\d-\d+)\s+(C\d\d)\s+(\S+)\s+[\d.]+s\s*(.*)$", line)
+    m = re.match(r"^(C\d\d-\d+)\s+(C\d\d)\s+(\S+)\s*([\d.]+s)?\s*(.*)$", line)
     if m:
-        res[m.group(1)] = (m.group(3), m.group(4).strip())
-print("| change | what it breaks / what it needs to manifest | caught by (failed sub-check) | check strengthened for it |")
-print("|---|---|---|---|")
-for name in sorted(os.listdir(os.path.join(HERE, "seeded"))):
+        res[m.group(1)].append((m.group(2), m.group(3), m.group(5).strip()))
+names = sorted((d for d in os.listdir(os.path.join(HERE, "seeded"))
+                if os.path.isdir(os.path.join(HERE, "seeded", d))),
+               key=lambda s: (s.split("-")[0], int(s.split("-")[1])))
+rows, stats = [], collections.Counter()
+for name in names:
     d = os.path.join(HERE, "seeded", name)
-    if not os.path.isdir(d):
-        continue
+    meta = json.load(open(os.path.join(d, "meta.json")))
     note = open(os.path.join(d, "note.md")).read() if os.path.exists(os.path.join(d, "note.md")) else ""
     lines = [l.strip("# *").strip() for l in note.splitlines() if l.strip()]
-    head = lines[0] if lines else ""
-    head = re.sub(r"^C\d\d seeded (change|bug) \d+\s*[-:–—]*\s*", "", head)
-    v, sub = res.get(name, ("?", ""))
-    print("| `%s` | %s | %s %s | %s |" % (name, head[:200].replace("|", "/"), v, ("`%s`" % sub[:60]) if sub else "", STRENGTHENED.get(name, "")))
+    head = re.sub(r"^(C\d\d\s*)?(seed(ed)?\s*(change|bug)?\s*\d*|Seed\d*-?\d*|round[- ]\d+ seed \d+|change \d+)\s*(\(round \d+\))?\s*#?\d*\s*[-:–—]*\s*", "", lines[0] if lines else "", flags=re.I)
+    rnd = (int(name.split("-")[1]) + 1) // 2
+    if meta.get("excluded"):
+        verdict = "excluded (not a violation of the statement as written)"
+        stats["excluded"] += 1
+    else:
+        r = res.get(name, [])
+        ok = [x for x in r if x[1] == "caught"]
+        verdict = "; ".join("%s `%s`" % (p, sub[:50]) for p, v, sub in ok) or "NOT RUN / MISSED"
+        stats["caught" if ok and len(ok) == len(r) else "missed"] += 1
+        if meta.get("decided_by") and meta["property"] not in meta["decided_by"]:
+            stats["decided by another property"] += 1
+    rows.append("| `%s` | %d | %s | %s | %s |" % (
+        name, rnd, head[:150].replace("|", "/"), verdict,
+        STRENGTHENED.get(name, "caught as delivered")))
+with open(os.path.join(HERE, "seeded", "INDEX.md"), "w") as f:
+    f.write("# Independently seeded changes\n\nEach directory holds `patch.diff` (against the tree the round started from), "
+            "`demo.py` (exit 0 on the clean tree, non-zero with the patch), `note.md` (the author's explanation) and "
+            "`meta.json` (confirmation record; `decided_by`/`judgement` when the change was judged to violate another "
+            "property than the one it was written for; `excluded` when it was judged not to contradict the statement).\n\n"
+            "| change | round | what it breaks | reported by (failed sub-check) | what the checks needed |\n|---|---|---|---|---|\n")
+    f.write("\n".join(rows) + "\n")
+print("changes on file: %d" % len(names))
+for k, v in sorted(stats.items()):
+    print("  %s: %d" % (k, v))
